@@ -13,7 +13,7 @@
     (known finding C12-vis-area-overflow).
   * `simplifyO`: the generic `simplify(s, geom)` on values whose collections may hold NIL members
     (a nil interface, or a nil `orb.MultiPoint`, both of which come back as a nil interface:
-    helpers.go:11 and :18 reached through `collection`, helpers.go:113).  On `.geom g` it is `simplifyG`.
+    helpers.go:11 and :18 reached through `collection`, which drops every member whose result is nil).  On `.geom g` it is `simplifyG`.
   * `layerSimplify` / `layersSimplify`: `mvt.Layer.Simplify` / `mvt.Layers.Simplify`
     (encoding/mvt/simplify.go): every feature's geometry through the ONE simplifier value, features
     whose result is a nil interface dropped, the others compacted in order.
@@ -122,7 +122,7 @@ where
       match simplifyO s g with
       | .ok g' =>
         (match go rest with
-         | .ok rest' => .ok (g' :: rest')
+         | .ok rest' => if g'.isNil then .ok rest' else .ok (g' :: rest')
          | .err e => .err e
          | .panic w => .panic w)
       | .err e => .err e
